@@ -328,6 +328,7 @@ type c35Op struct {
 	fnfail    int
 	expiryOff bool
 	cancelled bool
+	cancelAfter int // >0: the context is cancelled during the back-off sleep after this many reported failures
 }
 
 func (o c35Op) coq() string {
@@ -391,11 +392,18 @@ func c35Run(cs c35Case) (term, human string, retried, cleanupFault bool, nops in
 		maxElapsed = 4 * time.Millisecond
 	}
 	reports, succ := 0, -1
-	be := retry.New(m, maxElapsed, func(string, error, time.Duration) { reports++ }, func(_ string, n int) { succ = n })
+	var sleepCancel func()
+	cancelAt := 0
+	be := retry.New(m, maxElapsed, func(_ string, _ error, d time.Duration) {
+		reports++
+		if cancelAt > 0 && d >= 0 && reports == cancelAt && sleepCancel != nil {
+			sleepCancel() // RetryNotify calls notify right before it starts the timer and waits
+		}
+	}, func(_ string, n int) { succ = n })
 	retry.VerifSetFailedLoadExpiry(time.Hour)
 	defer retry.VerifSetFailedLoadExpiry(time.Hour)
 
-	var reqs, obss, hs []string
+	var reqs, obss, hs, zs []string
 	for _, o := range cs.ops {
 		m.calls = nil
 		reports, succ = 0, -1
@@ -403,6 +411,7 @@ func c35Run(cs c35Case) (term, human string, retried, cleanupFault bool, nops in
 		if o.cancelled {
 			cancel()
 		}
+		sleepCancel, cancelAt = cancel, o.cancelAfter
 		h := backend.Handle{Type: backend.PackFile, Name: strconv.FormatUint(o.name, 10), IsMetadata: o.meta}
 		var err error
 		var data []byte
@@ -481,6 +490,10 @@ func c35Run(cs c35Case) (term, human string, retried, cleanupFault bool, nops in
 				budget = primary - 1
 			}
 		}
+		if o.cancelAfter > 0 {
+			budget = o.cancelAfter - 1
+		}
+		zs = append(zs, coqBool(o.cancelAfter > 0))
 		reqs = append(reqs, fmt.Sprintf("mkreq %s %d %s", o.coq(), budget, coqBool(o.cancelled)))
 		calls := make([]string, len(m.calls))
 		for i, c := range m.calls {
@@ -498,8 +511,8 @@ func c35Run(cs c35Case) (term, human string, retried, cleanupFault bool, nops in
 	for i, f := range cs.script {
 		script[i] = f.coq()
 	}
-	term = fmt.Sprintf("C35m.mk (mkcfg %s %s) %s %s %s %s", coqBool(cs.atomic), coqBool(cs.flaky), store0,
-		coqList(script), coqList(reqs), coqList(obss))
+	term = fmt.Sprintf("C35m.mk (mkcfg %s %s) %s %s %s %s %s", coqBool(cs.atomic), coqBool(cs.flaky), store0,
+		coqList(script), coqList(reqs), coqList(obss), coqList(zs))
 	human = fmt.Sprintf("atomic=%v flaky=%v mode=%s store=%s script=%s: %s", cs.atomic, cs.flaky, cs.mode, store0,
 		strings.Join(script, ","), strings.Join(hs, "; "))
 	return term, human, retried, cleanupFault, len(cs.ops)
@@ -569,6 +582,17 @@ func engineC35(c *vctx) error {
 				mk(st, []c35Fault{F(c35FBefore, 0, c35Trans)}, c35Op{kind: "Remove", name: 1})
 			}
 		}
+	}
+	// context cancelled during the back-off sleep (after 1 / 2 reported failures); flaky permanent errors too
+	for _, flaky := range []bool{false, true} {
+		st := map[uint64][]byte{1: {9, 8, 7}, 3: {5}}
+		three := []c35Fault{F(c35FBefore, 0, c35Trans), F(c35FPartial, 1, c35Trans), F(c35FBefore, 0, c35Trans), F(c35FBefore, 0, c35Trans)}
+		emit("corpus", c35Case{flaky: flaky, mode: "inf", store: st, script: three, ops: []c35Op{{kind: "Load", name: 1, cancelAfter: 1}, {kind: "Load", name: 1}}})
+		emit("corpus", c35Case{flaky: flaky, mode: "inf", store: st, script: three, ops: []c35Op{{kind: "Load", name: 1, cancelAfter: 2}, {kind: "Load", name: 1, meta: true}}})
+		emit("corpus", c35Case{flaky: flaky, mode: "inf", store: st, script: three, ops: []c35Op{{kind: "Save", name: 4, data: d4, cancelAfter: 2}, {kind: "List"}}})
+		emit("corpus", c35Case{flaky: flaky, mode: "inf", store: st, script: three, ops: []c35Op{{kind: "List", cancelAfter: 1}, {kind: "Stat", name: 1, cancelAfter: 1}, {kind: "Remove", name: 1, cancelAfter: 3}}})
+		emit("corpus", c35Case{flaky: flaky, mode: "inf", store: st, script: []c35Fault{F(c35FBefore, 0, c35Perm), F(c35FBefore, 0, c35Perm)}, ops: []c35Op{{kind: "Load", name: 1, cancelAfter: 1}, {kind: "Load", name: 1}}})
+		emit("corpus", c35Case{flaky: flaky, mode: "inf", store: st, script: []c35Fault{F(c35FBefore, 0, c35Trans)}, ops: []c35Op{{kind: "Load", name: 1, cancelAfter: 2}}})
 	}
 	// flaky: five permanent errors interleaved with transient ones
 	emit("corpus", c35Case{flaky: true, mode: "inf", store: map[uint64][]byte{1: {1}}, ops: []c35Op{{kind: "Load", name: 1}, {kind: "Load", name: 1}},
@@ -664,6 +688,9 @@ func engineC35(c *vctx) error {
 				o.kind = "Remove"
 			default:
 				o.kind, o.expiryOff = "Expiry", rng.bool()
+			}
+			if cs.mode == "inf" && o.kind != "Expiry" && !o.cancelled && rng.chance(12) {
+				o.cancelAfter = 1 + rng.intn(3)
 			}
 			if i == 0 {
 				kind = strings.ToLower(o.kind) + "-first"
